@@ -252,6 +252,13 @@ func (t *Tokenizer) tokenizeBuffer(buf []byte, last bool) {
 			}
 			off += i
 		case valQuote:
+			if 256 < len(t.mode) && t.mode[256] == 't' {
+				// A quote ends a token just as it does on the fast path
+				// of tokenStart: add the token then look at the quote again.
+				t.addToken(string(t.tmp))
+				off--
+				break
+			}
 			t.quoteDelim = b
 			start := off + 1
 			if len(buf) <= start {
